@@ -123,7 +123,11 @@ def run_script(s, out):
         out["executed"] += 1
         exp = c["expect"]
         try:
-            if m == "__load__":
+            if m == "__new__":
+                # construct a throw-away object (constructor argument conversion / defaults)
+                tmp = make(c["kind"], {"args": [build_arg(a) for a in c.get("args", [])], "kwargs": c.get("kwargs", {})})
+                got = norm(getattr(tmp, c["probe"])()) if c.get("probe") and not c.get("probe_prop") else (norm(getattr(tmp, c["probe"])) if c.get("probe") else None)
+            elif m == "__load__":
                 obj = bourse.core.order_book_from_json(c["args"][0])
                 got = None
             elif m == "__save__":
